@@ -498,8 +498,8 @@ def r_retoggle(doc, op):
   t, c = _pick_col(doc, op)
   if not c: return None
   typ = DATA_TYPES[int(op['t']) % len(DATA_TYPES)]
-  if typ.split(':')[0] not in GROUPABLE and any(x['summarySourceCol'] == c['id'] for x in doc.columns_meta()):
-    typ = 'Text'
+  if any(x['summarySourceCol'] == c['id'] for x in doc.columns_meta()):
+    return None      # not on a group-by column: the listed conversion finding would re-key the summary table
   if c['isFormula']:
     return ['ModifyColumn', t['tableId'], c['colId'], {'isFormula': False, 'type': typ}]
   return ['ModifyColumn', t['tableId'], c['colId'],
